@@ -204,8 +204,16 @@ func CardReportEl(r *RCardReport, explicitNo bool) *El {
 				if r.AddrData.AllProp {
 					ad.Add(E(NSCard, "allprop"))
 				}
-				for _, n := range r.AddrData.Props {
-					ad.Add(E(NSCard, "prop").A("name", n))
+				for i, n := range r.AddrData.Props {
+					pe := E(NSCard, "prop").A("name", n)
+					// the optional novalue attribute (RFC 6352 10.4.2), in both of its values
+					switch i {
+					case 0:
+						pe.A("novalue", "no")
+					case 1:
+						pe.A("novalue", "yes")
+					}
+					ad.Add(pe)
 				}
 				p.Add(ad)
 			}
